@@ -32,6 +32,7 @@ def shards(tier, seed):
     out.append(("toy", dict(kind="toy", ncurves=3 if q else 10)))
     out.append(("child_hashseed_NIST192p", dict(kind="keys", cname="NIST192p", nrand=1, lzsearch=False, _pyopt="opt+hashseed")))
     out.append(("child_hashseed_SECP160r1", dict(kind="keys", cname="SECP160r1", nrand=1, lzsearch=False, _pyopt="hashseed")))
+    out.append(("child_bb_SECP112r2", dict(kind="keys", cname="SECP112r2", nrand=1, lzsearch=False, _pyopt="bb")))
     if not q:
         out.append(("openssl", dict(kind="openssl", count=12)))
     out.append(("near_recursion_limit", dict(kind="near_limit")))
